@@ -22,6 +22,8 @@ inductive Eff where
   | none
   | opens (v : Var)
   | opens2 (v w : Var)
+  /-- one call that installs several descriptors, in this order (recvmsg delivering an SCM_RIGHTS message) -/
+  | opensL (vs : List Var)
   | closes (v : Var)
   | maps (v : Var)
   | unmaps (v : Var)
@@ -83,6 +85,7 @@ def St.applyOk (s : St) : Eff → St
   | .none => s
   | .opens v => s.open1 v
   | .opens2 v w => (s.open1 v).open1 w
+  | .opensL vs => vs.foldl St.open1 s
   | .closes v => s.close1 v
   | .maps v => s.open1 v
   | .unmaps v => s.close1 v
@@ -181,11 +184,17 @@ def exec (owned : List Var) (s : Script) (fuel : Nat) (o : Oracle) : Final :=
 
 def subset (a b : List Var) : Bool := a.all (fun v => b.contains v)
 
+/-- every slot of the list is new (and they are distinct): the table with all of them added -/
+def opensAll : List Var → List Var → Option (List Var)
+  | o, [] => some o
+  | o, v :: r => if o.contains v then none else opensAll (v :: o) r
+
 /-- table after a successful call; `none` = the call breaks the discipline -/
 def effOk (o : List Var) : Eff → Option (List Var)
   | .none => some o
   | .opens v => if o.contains v then none else some (v :: o)
   | .opens2 v w => if o.contains v || o.contains w || v == w then none else some (w :: v :: o)
+  | .opensL vs => opensAll o vs
   | .closes v => if o.contains v then some (o.erase v) else none
   | .maps v => if o.contains v then none else some (v :: o)
   | .unmaps v => if o.contains v then some (o.erase v) else none
@@ -307,6 +316,7 @@ def KTab.applyOk (k : KTab) : Eff → KTab
   | .none => k
   | .opens v => k.open1 v
   | .opens2 v w => (k.open1 v).open1 w
+  | .opensL vs => vs.foldl KTab.open1 k
   | .closes v => k.close1 v
   | .maps v => k.map1 v
   | .unmaps v => k.close1 v
@@ -636,6 +646,24 @@ def ioUringDrop : Script :=
     (munmapN 2 (closeThen 0 (ok [])))
     (munmapN 3 (closeThen 0 (ok [])))
 
+/-! ### receiving descriptors: `rusl::network::recvmsg` on a unix socket + `MsgHdrBorrow::control_messages()`
+
+The peer has sent one SCM_RIGHTS message.  KERNEL step: how many of its descriptors the kernel installs in the receiver's
+table — as many as the control buffer has room for (0 .. 4 here), decided before the call returns; a failing `recvmsg`
+installs none.  API step: the iterator hands every installed descriptor to the caller (slots 0 .. n-1, in the order the
+kernel installed them). -/
+
+def recvInstalls (n : Nat) : Script := .sys "recvmsg" (.opensL (List.range n)) (ok (List.range n)) err
+
+def recvmsgRights : Script :=
+  .step "kernel installs at least 1 descriptor"
+    (.step "kernel installs at least 2 descriptors"
+      (.step "kernel installs at least 3 descriptors"
+        (.step "kernel installs 4 descriptors" (recvInstalls 4) (recvInstalls 3))
+        (recvInstalls 2))
+      (recvInstalls 1))
+    (recvInstalls 0)
+
 /-! ### Command::spawn -/
 
 inductive Stdio where
@@ -738,7 +766,8 @@ def cur : List (String × List Var × Script) := [
   ("getpwuid", [], getpwuid true),
   ("openpty", [], openpty true false false false), ("openpty_named", [], openpty true true false false),
   ("openpty_tio", [], openpty true false true true),
-  ("io_uring_setup", [], ioUringSetup), ("io_uring_drop", [0], ioUringDrop)]
+  ("io_uring_setup", [], ioUringSetup), ("io_uring_drop", [0], ioUringDrop),
+  ("recvmsg_rights", [], recvmsgRights)]
 
 /-- the same operations before their repair -/
 def old : List (String × List Var × Script) := [
